@@ -164,7 +164,12 @@ func (qs *QueryStore) OnQueryChange(cb func(store.QueryChange)) {
 
 // Flush waits for the indexing queue to be cleared.
 func (qs *QueryStore) Flush() {
-	qs.tq.Flush()
+	// The task queue reports itself empty as soon as the last task has been
+	// taken off the queue, while it is still running. Wait for a task queued
+	// after all others instead.
+	done := make(chan struct{})
+	qs.tq.Do(func() { close(done) })
+	<-done
 }
 
 func (qs *QueryStore) handleChange(id string, before, after interface{}) {
